@@ -35,8 +35,8 @@ func sessPESFor(id string) func(c CaseC11, a *hx.Arena) (hx.SessionRun, *hx.Fail
 		raw := a.Copy(0, p.Bytes())
 		h, err := pes.NewPESHeader(raw)
 		if err != nil {
-			if id == "C04" {
-				return hx.SessionRun{}, nil // header decoding as such is C11's business
+			if id == "C04" || p.StreamID == 0xBC {
+				return hx.SessionRun{}, nil // header decoding as such is C11's business; 0xBC: see c11Header
 			}
 			return hx.SessionRun{}, hx.Failf("pes-error", "NewPESHeader failed on a well-formed PES start: %v", err)
 		}
